@@ -9,6 +9,8 @@ mod rule;
 mod subrule;
 mod error;
 mod alias;
+#[cfg(feature = "verif")]
+pub mod verif;
 
 pub use seg::*;
 pub use place::*;
